@@ -472,6 +472,17 @@ theorem b0_g0 : 0 < g0.b0q ∧ |((g0.b0q : ℚ) : ℝ) ^ 2 * (4 * Real.pi) - 1| 
 example : |(3.5449077 : ℝ) * ((g0.b0q : ℚ) : ℝ) - 1| ≤ 1 / 10 ^ 9 :=
   constant_normalization_vs_b0 g0 g0_b0sq
 
+/-- the remaining kernel-checked certificates of the generated grids read as propositions about the
+ certified arrays (review2 E, C01-3): `…_sound` of `Lemmas/SHCert.lean` instantiated on a real grid
+ (`g0`) and, for the padding, on a `FastSphericalHarmonics` grid (`g2`) -/
+example := g0.constOk_sound _ _ g0_const
+example := g0.nonnegOk_sound g0_nonneg
+example := g0.zerosOk_sound g0_mabs g0_zeros
+example := g0.zerosOk_ratBasis g0_mabs g0_zeros
+example := g0.wprodOk_sound _ g0_wprod
+example := g0.nodesOk_sound _ g0_nodes
+example := g2.paddingOk_sound _ _ _ _ g2_padding
+
 theorem roundtrip_g1 : ∀ (x : List (List ℚ)), (∀ row ∈ x, row.length ≤ g1.L) →
     (∀ r' l', (g1_mask.getD r' []).getD l' false ≠ true → ent2 x r' l' = 0) →
     ∀ r l, r < g1.R → l < g1.L →
@@ -696,9 +707,9 @@ theorem fourier_zero_imag_orthonormal (M N : ℕ) (hM : 1 ≤ M) (h : 2 * (M - 1
     obtain rfl := Option.some.inj hf
     exact gram_zeroImag_identity M N (by omega) hM h c c' hc'
 
-/-- **the aliasing counterexample at the boundary** `N = 2 (M − 1)`, `M = m + 2 ≥ 2`: `real_basis` accepts the
- sizes (`N ≥ M` iff `m ≥ 0`… `2(m+1) ≥ m+2`), but the cosine of the top wavenumber `N/2` has squared norm 2
- and its sine column is identically zero -/
+/-- **the aliasing counterexample at the boundary** `N = 2 (M − 1)`, `M = m + 2 ≥ 2`: the guard of `real_basis`
+ accepts these sizes (`2 (m + 1) ≥ m + 2`), but the cosine column of the top wavenumber `M − 1 = N/2` has squared
+ norm 2 and its sine column has squared norm 0 (it vanishes at every node) -/
 theorem fourier_aliasing_at_boundary (m : ℕ) :
     ∃ f, SH.realBasis? Real.cos Real.sin Real.sqrt Real.pi (m + 2) (2 * (m + 1)) = some f ∧
       (1 + 1) * Real.pi / (2 * (m + 1) : ℕ) * ∑ i ∈ range (2 * (m + 1)),
